@@ -10,6 +10,12 @@ Translated (anything outside the grammar raises TranslateError):
                                                      -> padding_applies, padding_skipped,
                                                         n_pad_l, n_pad_r, illegal_size, illegal_padlen
 
+  * resize_array: the offset validation loop                 -> offset_invalid n_orig n_new off
+and from odl/discr/discr_ops.py into coq/Gen/ResizeDiscr.v (translate_discr):
+  * _resize_discr: the num_l / num_r decision tree             -> num_lr n_orig n_new off
+                   new_minpt / new_maxpt formulas              -> new_minpt, new_maxpt (any Num carrier)
+  * _offset_from_spaces: shift, sign by `grows`, containment   -> offset_float, offset_contained
+
 Grammar:
   INT   := name | int const | INT (+|-) INT | -INT | min(INT, INT) | max(INT, INT)
            | offset[axis] | lhs_arr.shape[axis] | rhs_arr.shape[axis]
@@ -82,9 +88,17 @@ def int_expr(node, env):
     if isinstance(node, ast.BinOp) and isinstance(node.op, (ast.Add, ast.Sub)):
         op = '+' if isinstance(node.op, ast.Add) else '-'
         return '(%s %s %s)' % (int_expr(node.left, env), op, int_expr(node.right, env))
+    if isinstance(node, ast.BinOp) and isinstance(node.op, ast.FloorDiv):
+        d = node.right
+        if not (isinstance(d, ast.Constant) and isinstance(d.value, int) and d.value > 0):
+            fail(node, 'floor division only by a positive literal')
+        return '(%s / %d)' % (int_expr(node.left, env), d.value)    # Z.div floors like Python for d > 0
     if (isinstance(node, ast.Call) and isinstance(node.func, ast.Name) and node.func.id in ('min', 'max')
             and len(node.args) == 2 and not node.keywords):
         return '(Z.%s %s %s)' % (node.func.id, int_expr(node.args[0], env), int_expr(node.args[1], env))
+    if (isinstance(node, ast.Call) and isinstance(node.func, ast.Name) and node.func.id == 'abs'
+            and len(node.args) == 1 and not node.keywords):
+        return '(Z.abs %s)' % int_expr(node.args[0], env)
     fail(node, 'integer expression outside grammar')
 
 
@@ -125,9 +139,18 @@ def slice_expr(node, env):
 
 
 def bool_test(node, env):
-    """INT cmp INT"""
-    if isinstance(node, ast.Compare) and len(node.ops) == 1 and type(node.ops[0]) in CMP:
-        return '(%s %s %s)' % (int_expr(node.left, env), CMP[type(node.ops[0])], int_expr(node.comparators[0], env))
+    """INT cmp INT [cmp INT] | INT != INT | not B | B and B"""
+    if isinstance(node, ast.Compare) and all(type(o) in CMP for o in node.ops):
+        terms = [node.left] + list(node.comparators)
+        parts = ['(%s %s %s)' % (int_expr(a, env), CMP[type(o)], int_expr(b, env))
+                 for a, o, b in zip(terms, node.ops, terms[1:])]
+        return parts[0] if len(parts) == 1 else '(' + ' && '.join(parts) + ')'
+    if isinstance(node, ast.Compare) and len(node.ops) == 1 and isinstance(node.ops[0], ast.NotEq):
+        return '(negb (%s =? %s))' % (int_expr(node.left, env), int_expr(node.comparators[0], env))
+    if isinstance(node, ast.UnaryOp) and isinstance(node.op, ast.Not):
+        return '(negb %s)' % bool_test(node.operand, env)
+    if isinstance(node, ast.BoolOp) and isinstance(node.op, ast.And):
+        return '(' + ' && '.join(bool_test(v, env) for v in node.values) + ')'
     fail(node, 'comparison outside grammar')
 
 
@@ -260,6 +283,19 @@ def tr_intersection(tree):
 
     return ('Definition intersection_slices (istart n_lhs n_rhs : Z) : pslice * pslice :=\n  '
             + '\n  '.join(out) + '\n  ' + chain(body[-1]) + '.\n')
+
+
+def tr_assign_check(tree):
+    """_assign_intersection must be exactly: slice tuples from _intersection_slice_tuples, then one
+    slice assignment (this is what C16/Model.v:assign_intersection transcribes)."""
+    fn = get_func(tree, '_assign_intersection')
+    expect_args(fn, ['lhs_arr', 'rhs_arr', 'offset'])
+    b = body_nodoc(fn)
+    if not (len(b) == 2 and same(b[0], 'lhs_slc, rhs_slc = _intersection_slice_tuples(lhs_arr, rhs_arr, offset)')
+            and same(b[1], 'lhs_arr[lhs_slc] = rhs_arr[rhs_slc]')):
+        fail(fn, '_assign_intersection is no longer `slices; lhs_arr[lhs_slc] = rhs_arr[rhs_slc]`')
+    return ('(* _assign_intersection: lhs_arr[lhs_slc] = rhs_arr[rhs_slc] with the slices above (checked) *)\n'
+            'Definition assign_intersection_is_slice_copy : bool := true.\n')
 
 
 def tr_outer(tree):
@@ -444,6 +480,182 @@ def tr_apply(tree):
     return txt
 
 
+def tr_offset_check(tree):
+    """for i, (n_orig, n_new, off) in enumerate(zip(arr.shape, out.shape, offset)):
+           if COND: raise ValueError(...)"""
+    fn = get_func(tree, 'resize_array')
+    loops = [st for st in fn.body if isinstance(st, ast.For)
+             and _hdr(st, 'for i, (n_orig, n_new, off) in enumerate(zip(arr.shape, out.shape, offset)): pass')]
+    if len(loops) != 1:
+        fail(fn, 'expected exactly one offset validation loop in resize_array')
+    body = loops[0].body
+    if not (len(body) == 1 and isinstance(body[0], ast.If) and not body[0].orelse and len(body[0].body) == 1
+            and isinstance(body[0].body[0], ast.Raise) and isinstance(body[0].body[0].exc, ast.Call)
+            and ast.unparse(body[0].body[0].exc.func) == 'ValueError'):
+        fail(loops[0], 'offset validation loop must be a single `if ...: raise ValueError`')
+    env = Env(['n_orig', 'n_new', 'off'])
+    return ('Definition offset_invalid (n_orig n_new off : Z) : bool :=\n  %s.\n' % bool_test(body[0].test, env))
+
+
+# ---------------------------------------------------------------- odl/discr/discr_ops.py
+SRC_D = 'odl/discr/discr_ops.py'
+
+
+def t_expr(node, ints, carriers):
+    """carrier-valued expression: carrier names, integer names (embedded by of_Z), float literals, + - *"""
+    txt = ast.unparse(node)
+    if txt in carriers:
+        return carriers[txt]
+    if isinstance(node, ast.Name) and node.id in ints:
+        return '(of_Z %s)' % node.id
+    if isinstance(node, ast.Constant) and isinstance(node.value, (int, float)) and not isinstance(node.value, bool):
+        from fractions import Fraction
+        f = Fraction(node.value)
+        return '(of_Q (%d # %d)%%Q)' % (f.numerator, f.denominator)
+    if isinstance(node, ast.UnaryOp) and isinstance(node.op, ast.USub):
+        return '(- %s)' % t_expr(node.operand, ints, carriers)
+    if isinstance(node, ast.BinOp) and isinstance(node.op, (ast.Add, ast.Sub, ast.Mult, ast.Div)):
+        op = {ast.Add: '+', ast.Sub: '-', ast.Mult: '*', ast.Div: '/'}[type(node.op)]
+        return '(%s %s %s)' % (t_expr(node.left, ints, carriers), op, t_expr(node.right, ints, carriers))
+    raise TranslateError('%s:%s: carrier expression outside grammar: %s'
+                         % (SRC_D, getattr(node, 'lineno', '?'), txt[:120]))
+
+
+def tr_num_lr(fn):
+    if not any(same(st, 'affected = np.not_equal(newshp, discr.shape)') for st in fn.body):
+        fail(fn, '`affected = np.not_equal(newshp, discr.shape)` not found')
+    loops = [st for st in fn.body if isinstance(st, ast.For) and _hdr(
+        st, 'for axis, (n_orig, n_new, off, on_bdry) in enumerate(zip(discr.shape, newshp, offset, nodes_on_bdry)): pass')]
+    if len(loops) != 1:
+        fail(fn, 'axis loop of _resize_discr not found')
+    body = loops[0].body
+    first = body[0]
+    if not (isinstance(first, ast.If) and ast.unparse(first.test) == 'affected[axis]'):
+        fail(first, 'expected `if affected[axis]:` first in the axis loop')
+
+    def block(stmts, env):
+        """straight-line assignments and nested ifs; every leaf ends with (num_l, num_r)"""
+        out = []
+        for k, st in enumerate(stmts):
+            if isinstance(st, ast.Assign) and len(st.targets) == 1 and isinstance(st.targets[0], ast.Name):
+                out.append('let %s := %s in' % (st.targets[0].id, int_expr(st.value, env)))
+                env.kind[st.targets[0].id] = 'int'
+            elif (isinstance(st, ast.Assign) and len(st.targets) == 1 and isinstance(st.targets[0], ast.Tuple)
+                  and isinstance(st.value, ast.Tuple) and len(st.value.elts) == len(st.targets[0].elts)):
+                for t, v in zip(st.targets[0].elts, st.value.elts):
+                    out.append('let %s := %s in' % (t.id, int_expr(v, env)))
+                    env.kind[t.id] = 'int'
+            elif isinstance(st, ast.If):
+                if k != len(stmts) - 1:
+                    fail(st, 'an if must be the last statement of its block')
+                return ' '.join(out) + ' ' + branch(st, env)
+            else:
+                fail(st, 'statement outside grammar')
+        if env.kind.get('num_l') != 'int' or env.kind.get('num_r') != 'int':
+            fail(stmts[0], 'branch does not define num_l and num_r')
+        return ' '.join(out) + ' (num_l, num_r)'
+
+    def branch(node, env):
+        t = node.test
+        if not node.orelse:
+            fail(node, 'if without else')
+        els = node.orelse
+        els_txt = (lambda e: branch(els[0], e) if len(els) == 1 and isinstance(els[0], ast.If) else block(els, e))
+        if same(t, 'off is None'):
+            e1, e2 = env.copy(), env.copy()
+            e2.kind['off'] = 'int'
+            return ('match off with\n    | None => %s\n    | Some off => %s\n    end'
+                    % (block(node.body, e1), els_txt(e2)))
+        return 'if %s\n    then %s\n    else %s' % (bool_test(t, env), block(node.body, env.copy()), els_txt(env.copy()))
+
+    env = Env(['n_orig', 'n_new'])
+    then = block(first.body, env.copy())
+    els = block(first.orelse, env.copy())
+    txt = ('Definition num_lr (n_orig n_new : Z) (off : option Z) : Z * Z :=\n'
+           '  if negb (n_new =? n_orig)    (* affected[axis] = np.not_equal(newshp, discr.shape)[axis] *)\n'
+           '  then %s\n  else %s.\n' % (then, els))
+    # new_minpt / new_maxpt
+    carriers = {'grid_min[axis]': 'grid_min', 'grid_max[axis]': 'grid_max', 'cell_size[axis]': 'cell_size'}
+    if not any(same(st, 'grid_min, grid_max = discr.grid.min(), discr.grid.max()') for st in fn.body) or \
+            not any(same(st, 'cell_size = discr.cell_sides') for st in fn.body):
+        fail(fn, 'grid_min / grid_max / cell_size definitions changed')
+    defs = {}
+    for st in body[1:]:
+        if isinstance(st, ast.If) and isinstance(st.test, ast.Name) and st.test.id in ('on_bdry_l', 'on_bdry_r'):
+            def app(stmts):
+                if not (len(stmts) == 1 and isinstance(stmts[0], ast.Expr) and isinstance(stmts[0].value, ast.Call)
+                        and isinstance(stmts[0].value.func, ast.Attribute) and stmts[0].value.func.attr == 'append'
+                        and len(stmts[0].value.args) == 1):
+                    fail(st, 'expected a single append')
+                return stmts[0].value.func.value.id, stmts[0].value.args[0]
+            (l1, e1), (l2, e2) = app(st.body), app(st.orelse)
+            if l1 != l2 or l1 in defs:
+                fail(st, 'unexpected append targets')
+            defs[l1] = (st.test.id, t_expr(e1, ('num_l', 'num_r'), carriers), t_expr(e2, ('num_l', 'num_r'), carriers))
+    if sorted(defs) != ['new_maxpt', 'new_minpt']:
+        fail(fn, 'new_minpt / new_maxpt formulas not found')
+    sec = 'Section Carrier.\nContext {T : Type} `{Num T}.\nLocal Open Scope num_scope.\n'
+    sec += ('Definition new_minpt (%s : bool) (grid_min cell_size : T) (num_l : Z) : T :=\n  if %s then %s\n  else %s.\n'
+            % (defs['new_minpt'][0], defs['new_minpt'][0], defs['new_minpt'][1], defs['new_minpt'][2]))
+    sec += ('Definition new_maxpt (%s : bool) (grid_max cell_size : T) (num_r : Z) : T :=\n  if %s then %s\n  else %s.\n'
+            % (defs['new_maxpt'][0], defs['new_maxpt'][0], defs['new_maxpt'][1], defs['new_maxpt'][2]))
+    return txt, sec
+
+
+def tr_offset_from_spaces(fn):
+    need = ['affected = np.not_equal(dom.shape, ran.shape)',
+            'shift = (ran.grid.min() - dom.grid.min()) / dom.cell_sides',
+            'grows = np.greater(ran.shape, dom.shape)',
+            'offset_float = np.where(grows, -shift, shift)',
+            'offset = np.around(offset_float).astype(int)']
+    for t in need:
+        if not any(same(st, t) for st in fn.body):
+            fail(fn, 'statement changed or missing: ' + t)
+    loops = [st for st in fn.body if isinstance(st, ast.For)]
+    if len(loops) != 1 or not _hdr(loops[0], 'for i in range(dom.ndim): pass'):
+        fail(fn, 'expected one loop over the axes')
+    conds = []
+    for st in loops[0].body:
+        if not (isinstance(st, ast.If) and not st.orelse and len(st.body) == 1 and isinstance(st.body[0], ast.Raise)
+                and isinstance(st.test, ast.BoolOp) and isinstance(st.test.op, ast.And)
+                and ast.unparse(st.test.values[0]) == 'affected[i]' and len(st.test.values) == 2):
+            fail(st, 'expected `if affected[i] and not ...: raise ValueError`')
+        conds.append(st.test.values[1])
+    if len(conds) != 2 or not same(conds[0], 'not np.isclose(offset[i], offset_float[i])'):
+        fail(loops[0], 'expected the integrality guard followed by the containment guard')
+    env = Env([], {'offset[i]': 'off', 'ran.shape[i]': 'n_ran', 'dom.shape[i]': 'n_dom'})
+    c = conds[1]
+    if not (isinstance(c, ast.UnaryOp) and isinstance(c.op, ast.Not)):
+        fail(c, 'containment guard must be `not (...)`')
+    contained = bool_test(c.operand, env)
+    sec = ('(* shift = (ran.grid.min() - dom.grid.min()) / dom.cell_sides;\n'
+           '   offset_float = np.where(grows, -shift, shift),  grows = ran.shape > dom.shape *)\n'
+           'Definition offset_float (grows : bool) (ran_gmin dom_gmin dom_cs : T) : T :=\n'
+           '  let shift := (ran_gmin - dom_gmin) / dom_cs in if grows then - shift else shift.\nEnd Carrier.\n')
+    txt = 'Definition offset_contained (off n_ran n_dom : Z) : bool :=\n  %s.\n' % contained
+    return sec, txt
+
+
+def translate_discr(repo=None):
+    path = os.path.join(repo or REPO, SRC_D)
+    try:
+        tree = ast.parse(open(path).read())
+    except (IOError, SyntaxError) as e:
+        raise TranslateError('cannot read/parse %s: %s' % (path, e))
+    global SRC
+    old, SRC = SRC, SRC_D
+    try:
+        num, sec1 = tr_num_lr(get_func(tree, '_resize_discr'))
+        sec2, cont = tr_offset_from_spaces(get_func(tree, '_offset_from_spaces'))
+    finally:
+        SRC = old
+    return '\n'.join([
+        '(* GENERATED by translate/padding.py from %s -- do not edit. *)' % SRC_D,
+        'From Coq Require Import ZArith QArith Bool List.',
+        'From Verif Require Import Base.Num.',
+        'Local Open Scope Z_scope.', '', num, cont, sec1 + sec2])
+
+
 def translate(repo=None):
     path = os.path.join(repo or REPO, SRC)
     try:
@@ -473,9 +685,10 @@ def translate(repo=None):
         '',
         'Definition supported_modes : list pmode := [%s].' % '; '.join(PMODE[m] for m in modes),
         '',
-        tr_intersection(tree), tr_outer(tree), tr_inner(tree), tr_apply(tree)]
+        tr_intersection(tree), tr_outer(tree), tr_inner(tree), tr_apply(tree), tr_offset_check(tree), tr_assign_check(tree)]
     return '\n'.join(parts)
 
 
 if __name__ == '__main__':
     print(translate())
+    print(translate_discr())
